@@ -84,28 +84,30 @@ impl PrettyPrint {
         let n_spc = line.to_string().len() + 1;
         let spc = " ".repeat(n_spc);
 
-        // Left align the text
-        let mut first_non_ws = 0;
-        for (i, c) in text.chars().enumerate() {
-            if !c.is_whitespace() {
-                first_non_ws = i;
-                break;
-            }
-        }
+        // Left align the text. Positions are counted in characters, so work on
+        // characters (a line may contain multi-byte characters).
+        let chars: Vec<char> = text.chars().collect();
+        let first_non_ws = chars
+            .iter()
+            .position(|c| !c.is_whitespace())
+            .unwrap_or(0);
 
         // HACK: Use the text line so we have the same tab spacing
-        let mut base: String = text
-            .get(first_non_ws..)
-            .unwrap_or_default()
-            .chars()
-            .map(|c| if c.is_whitespace() { c } else { ' ' })
+        let offset = start.saturating_sub(first_non_ws);
+        let mut base: String = chars
+            .iter()
+            .skip(first_non_ws)
+            .take(offset)
+            .map(|c| if c.is_whitespace() { *c } else { ' ' })
             .collect();
+        // The position may lie just behind the end of the line
+        for _ in base.chars().count()..offset {
+            base.push(' ');
+        }
 
         // Arrows pointing the the relevant position
         let end = end + 1;
-        let arrows = "^".repeat(end.saturating_sub(start));
-        let offset = start.saturating_sub(first_non_ws);
-        base.replace_range(offset.., &arrows);
+        base.push_str(&"^".repeat(end.saturating_sub(start)));
 
         let aligned = text.trim();
         format!("{spc} |\n {line} | {aligned}\n{spc} | {base}\n")
